@@ -20,8 +20,27 @@ func ivPoint(x float64) Iv { return Iv{x, x} }
 func down(x float64) float64 { return math.Nextafter(x, math.Inf(-1)) }
 func up(x float64) float64   { return math.Nextafter(x, math.Inf(1)) }
 
+// exactSum reports whether the floating point sum a+b is exact (TwoSum error term is zero).
+func exactSum(a, b float64) (float64, bool) {
+	s := a + b
+	if math.IsInf(s, 0) || math.IsNaN(s) {
+		return s, false
+	}
+	bb := s - a
+	err := (a - (s - bb)) + (b - bb)
+	return s, err == 0
+}
+
 func ivAdd(a, b Iv) Iv {
-	r := Iv{down(a.Lo + b.Lo), up(a.Hi + b.Hi)}
+	lo, exLo := exactSum(a.Lo, b.Lo)
+	hi, exHi := exactSum(a.Hi, b.Hi)
+	r := Iv{lo, hi}
+	if !exLo {
+		r.Lo = down(lo)
+	}
+	if !exHi {
+		r.Hi = up(hi)
+	}
 	if a.Lo >= 0 && b.Lo >= 0 && r.Lo < 0 {
 		r.Lo = 0
 	}
@@ -34,25 +53,43 @@ func ivAdd(a, b Iv) Iv {
 func ivNeg(a Iv) Iv { return Iv{-a.Hi, -a.Lo} }
 
 func ivMul(a, b Iv) Iv {
-	p := []float64{a.Lo * b.Lo, a.Lo * b.Hi, a.Hi * b.Lo, a.Hi * b.Hi}
+	type pr struct {
+		v     float64
+		exact bool
+	}
+	mk := func(x, y float64) pr {
+		v := x * y
+		ex := !math.IsInf(v, 0) && !math.IsNaN(v) && math.FMA(x, y, -v) == 0
+		return pr{v, ex}
+	}
+	p := []pr{mk(a.Lo, b.Lo), mk(a.Lo, b.Hi), mk(a.Hi, b.Lo), mk(a.Hi, b.Hi)}
 	lo, hi := p[0], p[0]
 	for _, v := range p[1:] {
-		if v < lo {
+		if math.IsNaN(v.v) {
+			lo.v = math.NaN()
+		}
+		if v.v < lo.v || v.v == lo.v && !v.exact {
 			lo = v
 		}
-		if v > hi {
+		if v.v > hi.v || v.v == hi.v && !v.exact {
 			hi = v
 		}
 	}
-	if math.IsNaN(lo) || math.IsNaN(hi) {
+	if math.IsNaN(lo.v) || math.IsNaN(hi.v) {
 		return Iv{math.Inf(-1), math.Inf(1)}
 	}
-	r := Iv{down(lo), up(hi)}
+	r := Iv{lo.v, hi.v}
+	if !lo.exact {
+		r.Lo = down(lo.v)
+	}
+	if !hi.exact {
+		r.Hi = up(hi.v)
+	}
 	// sign information is exact: outward rounding must not move a bound across zero
-	if lo >= 0 && r.Lo < 0 {
+	if lo.v >= 0 && r.Lo < 0 {
 		r.Lo = 0
 	}
-	if hi <= 0 && r.Hi > 0 {
+	if hi.v <= 0 && r.Hi > 0 {
 		r.Hi = 0
 	}
 	return r
@@ -161,6 +198,8 @@ func atomIv(a *Atom, env ivEnv) (Iv, error) {
 			return Iv{0, math.Max(-args[0].Lo, args[0].Hi)}, nil
 		case a.Fn == "sqrt" && len(args) == 1 && args[0].Lo >= 0:
 			return Iv{down(math.Sqrt(args[0].Lo)), up(math.Sqrt(args[0].Hi))}, nil
+		case a.Fn == "log" && len(args) == 1 && args[0].Lo > 0:
+			return Iv{down(math.Log(args[0].Lo)), up(math.Log(args[0].Hi))}, nil
 		case a.Fn == "exp" && len(args) == 1:
 			return Iv{down(math.Exp(args[0].Lo)), up(math.Exp(args[0].Hi))}, nil
 		case a.Fn == "pow" && len(args) == 2 && isConstPoly(a.Args[1]) && (args[0].Lo > 0 || args[0].Lo >= 0 && args[1].Lo > 0):
